@@ -729,21 +729,25 @@ func (l *lexer) lexHeredoc() action {
 func (l *lexer) scanHeredoc() bool {
 	find := func(r *ast.Redir, delim string) bool {
 		// the line that has just been read, line continuations
-		// included, begins at the earliest part in column 1 after the
-		// last <newline>
+		// included, begins at the earliest part after the last
+		// <newline> (positions do not tell: they stand still inside
+		// the text of an alias)
 		start, line := -1, ""
 		for i := len(l.word) - 1; i >= 0; i-- {
-			if l.word[i].Pos().Col() == 1 {
-				s := l.print(l.word[i:])
-				if r.Op == "<<-" {
-					// the delimiter may be indented with tabs
-					s = strings.TrimLeft(s, "\t")
-				}
-				if strings.ContainsRune(s, '\n') {
-					break
-				}
-				start, line = i, s
+			s := l.print(l.word[i:])
+			if strings.ContainsRune(s, '\n') {
+				break
 			}
+			if i != 0 {
+				if w, ok := l.word[i-1].(*ast.Lit); !ok || !strings.HasSuffix(w.Value, "\n") {
+					continue
+				}
+			}
+			if r.Op == "<<-" {
+				// the delimiter may be indented with tabs
+				s = strings.TrimLeft(s, "\t")
+			}
+			start, line = i, s
 		}
 		if start >= 0 && line == delim {
 			r.Heredoc = l.word[:start]
